@@ -250,8 +250,10 @@ class DeployEngine(object):
         # route endpoints for device vertices
         for v in vs:
             res = g.vertices_resources[v]
-            if res.get(self.R.Cores, 1) == 0 and t.draw(2) and \
-                    v not in group_of:
+            if res.get(self.R.Cores, 1) == 0 and t.draw(2):
+                gid = group_of.get(v)
+                if gid is not None and (gid in located_groups or t.draw(2)):
+                    continue
                 # a chip with a link that leads nowhere
                 cands = [(x, y, l) for (x, y) in chips for l in range(6)
                          if not mv.link_up(x, y, l) or
@@ -266,6 +268,10 @@ class DeployEngine(object):
                 g.endpoints[v] = Routes(l)
                 g.located[v] = (x, y)
                 w.probe("endpoint_sink")
+                if gid is not None:
+                    # a device kept on one chip with other vertices
+                    located_groups.add(gid)
+                    w.probe("endpoint_in_same_chip_group")
         # location constraints
         for _ in range(t.draw_small(4, 0.4)):
             v = vs[t.draw(len(vs))]
@@ -414,6 +420,10 @@ class DeployEngine(object):
             if not self.c03 and t.draw(4) == 0:
                 self.earlier_mapping(Tape(seed=t.subseed()), g.dense_bits)
             radius = [0, 1, 2, 5, 10, 20][t.draw(6)]
+            if g.broadcasts:
+                w.probe("broadcast_net")
+                if t.draw(2):
+                    radius = 1 + t.draw(2)
             if radius == 0:
                 w.probe("radius_zero")
             pname, place_fn, place_kwargs = self.placer()
